@@ -2,7 +2,7 @@
 # tools/multiseed.sh "<seeds>" [ID ...]  — run quick checks with several seeds, report anything not OK.
 ROOT="$(cd "$(dirname "$0")/.." && pwd)"
 SEEDS="${1:-1 2 3 4 5}"; shift
-IDS="$@"; [ -z "$IDS" ] && IDS=$("$ROOT/target/verif/nbv" list 2>/dev/null)
+IDS="$@"; [ -z "$IDS" ] && IDS=$(ls "$ROOT"/harness/src/props/ | grep -E "^c[0-9]+\.rs$" | sed "s/\.rs//" | tr a-z A-Z)
 bad=0
 for id in $IDS; do
   for s in $SEEDS; do
